@@ -92,7 +92,7 @@ def stepLine (ws : List String) : String :=
     match unhex b with
     | some b => showRes kindName (fromRecord b)
     | none => "bad-op"
-  | ["recdeser", b, tp] =>
+  | ["recdeser", _, b, tp] =>
     match unhex b with
     | some b =>
       let verdict : Option Bytes := if tp.startsWith "ok:" then unhex ((tp.drop 3).toString) else none
@@ -172,6 +172,15 @@ def stepLine (ws : List String) : String :=
     | some file =>
       let parsed : Option Nat := if tp.startsWith "ok:" then ((tp.drop 3).toString).toNat? else none
       showRes toString (registryLoad file (utf8 == "1") parsed)
+  | ["regsave", _, _, la, lb, nb] =>
+    match la.toNat?, lb.toNat?, nb.toNat? with
+    | some la, some lb, some nb =>
+      let (len, r) := saveSaveLoad la lb nb
+      s!"len={len} " ++ (match r with
+        | .ok n => s!"ok {n} same"
+        | .err _ => "err"
+        | .panic _ => "panic")
+    | _, _, _ => "bad-op"
   | _ => "bad-op"
 
 def step (_ : Unit) (ws : List String) : Unit × String := ((), stepLine ws)
@@ -190,7 +199,7 @@ def searchCandidates : List String := Id.run do
   for n in List.range 6 do
     let b := (List.replicate n 0x91)
     if (fromRecord b).isPanic then out := out ++ [s!"hdr {hex b}"]
-    if (deserializeRecord (fun _ => (none : Option Bytes)) b).isPanic then out := out ++ [s!"recdeser {hex b} x"]
+    if (deserializeRecord (fun _ => (none : Option Bytes)) b).isPanic then out := out ++ [s!"recdeser - {hex b} x"]
   let edge : List Nat := [0, 1, 2, 32767, 32768, 65534, 65535]
   for a in edge do
     for b in edge do
@@ -201,6 +210,8 @@ def searchCandidates : List String := Id.run do
   for s in ["0-65535", "1-2", "-", "", "1", "1-2-3"] do
     let bs : Bytes := s.toUTF8.toList.map UInt8.toNat
     if (portRangeParse bs).isPanic then out := out ++ [s!"portparse {hex bs}"]
+  -- saving a short registry over a long one must leave exactly the short one
+  if (saveSaveLoad 200 100 0).1 ≠ 100 then out := out ++ ["regsave 2,2,40,1 0,0,0,0"]
   let cedge : List Nat := [0, 1, 2147483647, 2147483648, 4294967294, 4294967295]
   for s in cedge do
     for f in cedge do
